@@ -109,3 +109,35 @@ def quiet():
         warnings.simplefilter("ignore")
         with np.errstate(all="ignore"):
             yield
+
+
+def decoy_dm(dm):
+    """the same matrix values under OTHER objectives and weights (a cache keyed on part of the input would go stale)"""
+    d = dict(dm)
+    o = list(dm["objectives"])
+    n = len(o)
+    flip = [j for j in range(n) if j % 2 == 0] if n > 1 else [0]
+    d["objectives"] = [(-x if j in flip else x) for j, x in enumerate(o)]
+    w = list(dm["weights"])
+    d["weights"] = w[1:] + w[:1] if n > 1 else [w[0] * 2]
+    return d
+
+
+def warmup(dec, dm_obj, dm_case, spec):
+    """before the evaluation that is judged: (a) the SAME decision-maker object evaluates a decoy problem with the same
+    matrix values but other objectives / weights; (b) OTHER methods evaluate the same DecisionMatrix object.  Everything a
+    correct library does here is side-effect free; results and refusals of the warm-up are ignored."""
+    import skcriteria.agg.moora as moora
+    import skcriteria.agg.similarity as similarity
+
+    with quiet():
+        if spec["name"] != "SIMUS":
+            try:
+                dec.evaluate(G.mkdm(decoy_dm(dm_case)))
+            except Exception:
+                pass
+        for other in (moora.FullMultiplicativeForm(), moora.RatioMOORA(), similarity.TOPSIS(metric="cityblock")):
+            try:
+                other.evaluate(dm_obj)
+            except Exception:
+                pass
